@@ -546,7 +546,9 @@ impl Melda {
                 // An object can be None if its an "empty" delta array descriptor
                 if let Some(object) = object {
                     let digest = digest_object(&object).unwrap(); // Digest of the current object
-                    if digest.ne(winning_revision.digest()) {
+                    // A non-empty array patch is always an update, even when it is identical
+                    // to the patch recorded by the winning revision
+                    if digest.ne(winning_revision.digest()) || is_array_descriptor(uuid) {
                         // Digest is different, there was an update
                         let rev = Revision::new_updated(digest, winning_revision);
                         let winning_revision = winning_revision.clone();
